@@ -11,8 +11,10 @@ type forExpander struct {
 	// lexing state fields
 	nextToken token
 	labelBuf  []string
-	exprBuf   []token
-	atEOF     bool
+	// a newline has been read since the last label was put into labelBuf
+	labelGapNewline bool
+	exprBuf         []token
+	atEOF           bool
 
 	// for state fields
 	forCountLabel string
@@ -178,17 +180,24 @@ func forConsumeLabels(f *forExpander) forStateFn {
 			return forWriteLabelsEmitConsumeLine
 		} else {
 			f.labelBuf = append(f.labelBuf, f.nextToken.val)
+			f.labelGapNewline = false
 			f.next()
 			return forConsumeLabels
 		}
 	} else if f.nextToken.typ == tokComment {
-		// a comment between a label and its line may be an ;assert or a
-		// ;name line: keep it, on a line of its own
-		f.tokens <- f.nextToken
-		f.tokens <- token{typ: tokNewline}
+		// a comment line between a label and its line may be an ;assert or
+		// a ;name line: keep it, on a line of its own. A remark behind the
+		// label on the label's own line is not a comment line and is dropped.
+		if f.labelGapNewline {
+			f.tokens <- f.nextToken
+			f.tokens <- token{typ: tokNewline}
+		}
 		f.next()
 		return forConsumeLabels
 	} else if f.nextToken.typ == tokNewline || f.nextToken.typ == tokColon {
+		if f.nextToken.typ == tokNewline {
+			f.labelGapNewline = true
+		}
 		f.next()
 		return forConsumeLabels
 	} else {
